@@ -59,6 +59,9 @@ type Features struct {
 	MaxDepth        int
 	// clause-level switches (all on by default)
 	NoDistinctOn, NoFetch, NoForClause, NoReturning, NoOnConflict, NoDMLWith, NoMaterialized, NoGroupingOps bool
+	// Flat: no nested query anywhere and no statement-starting keyword after the
+	// first token (SELECT/INSERT ... VALUES/DELETE only): the sub-grammar C12 quantifies over
+	Flat bool
 }
 
 func AllFeatures() Features {
